@@ -27,7 +27,7 @@ use cosmwasm_std::{
 };
 use cw20::{BalanceResponse, Cw20Coin, Cw20ExecuteMsg, Cw20QueryMsg, TokenInfoResponse};
 use cw_multi_test::{App, AppBuilder, AppResponse, ContractWrapper, Executor};
-use stableswap_3pool::verif_hooks::{assert_slippage_tolerance, compute_swap, StableSwap, SwapComputation};
+use stableswap_3pool::verif_hooks::{assert_slippage_tolerance, compute_offer_amount, compute_swap, StableSwap, SwapComputation};
 use std::collections::VecDeque;
 use std::str::FromStr;
 use white_whale_std::fee::Fee;
@@ -1056,6 +1056,49 @@ fn monitors(
     if let ParsedOp::Foreign(k, _, _) = op {
         let name = ["withdraw_only_through_lp_token", "withdraw_only_through_lp_token", "swap_hook_only_from_pool_asset", "direct_swap_needs_its_funds"][(*k as usize).min(3)];
         mon.check("C04", name, !ok, || format!("foreign entry point accepted: before {} after {}", a.show(), b.show()));
+    }
+    // ---- C14, observation point `ReverseSimulation`: the query answers what the pool's own reverse formula
+    //      gives on the REPORTED reserves (balance − pending protocol fees, each asset under its own name),
+    //      the stored fees and the amplification in force at this block. (What that formula should be is not
+    //      part of any listed property; the plumbing around it is.)
+    if let (Some(r0), Some(r1), Some(r2)) = (b.r[0], b.r[1], b.r[2]) {
+        let rs = [r0, r1, r2];
+        let (o, k) = [(0usize, 1usize), (1, 0), (0, 2), (2, 0), (1, 2), (2, 1)][(h as usize + u) % 6];
+        let un = 3 - o - k;
+        let amt = (rs[k] / (3 + (h as u128 % 7))).max(1);
+        let pool = w.pool.clone();
+        let (ia, io) = (w.info_of(k), w.info_of(o));
+        let app = &w.app;
+        let q: Outcome<t::ReverseSimulationResponse> = guarded(|| {
+            app.wrap().query_wasm_smart(
+                &pool,
+                &t::QueryMsg::ReverseSimulation { ask_asset: Asset { info: ia.clone(), amount: Uint128::new(amt) }, offer_asset: Asset { info: io.clone(), amount: Uint128::zero() } },
+            )
+        });
+        let fees = pool_fee(b.fees.0, b.fees.1, b.fees.2);
+        let amp = b.amp;
+        let hook = guarded(|| {
+            compute_offer_amount(Uint128::new(rs[o]), Uint128::new(rs[k]), Uint128::new(rs[un]), Uint128::new(amt), fees.clone(), StableSwap::new(amp.0, amp.1, h, amp.2, amp.3))
+                .map_err(|e| e.to_string())
+        });
+        let same = match (&q, &hook) {
+            (Outcome::Ok(x), Outcome::Ok(y)) => {
+                mon.stat("reverse_simulation_answered");
+                x.offer_amount == y.offer_amount
+                    && x.spread_amount == y.spread_amount
+                    && x.swap_fee_amount == y.swap_fee_amount
+                    && x.protocol_fee_amount == y.protocol_fee_amount
+                    && x.burn_fee_amount == y.burn_fee_amount
+            }
+            (Outcome::Ok(_), _) | (_, Outcome::Ok(_)) => false,
+            _ => {
+                mon.stat("reverse_simulation_refused");
+                true
+            }
+        };
+        mon.check("C14", "trio_reverse_simulation_on_reported_reserves", same, || {
+            format!("ReverseSimulation ask {amt} of asset {k} for asset {o}: query {:?}, the pool's formula on reported reserves {rs:?} {:?}", q.as_ok().map(|x| x.offer_amount), hook.as_ok().map(|x| x.offer_amount))
+        });
     }
     // ---- C04 solvency: balance >= reported reserve + pending protocol fee, per asset
     for i in 0..3 {
